@@ -1,2 +1,539 @@
-//! controlled scheduler (to be filled in)
-pub fn on_panic(_msg: &str) {}
+//! Controlled scheduler (CHESS-style) over the real rayon worker loops, and the stateless explorer.
+//!
+//! Real OS threads, but while an execution is *controlled* exactly one registered task runs at a time;
+//! every other task is parked inside a hook (`ktio::verif::point`). A decision is taken whenever the
+//! running task parks at a point, blocks on a shim mutex or exits. Choices are replayed from a prefix and
+//! default to 0 (= keep running the same task if it is still enabled) afterwards.
+#![allow(dead_code)]
+use ktio::verif::Handler;
+use std::cell::Cell;
+use std::sync::{Arc, Condvar, Mutex, OnceLock};
+use std::time::{Duration, Instant};
+
+#[derive(Clone, Copy, PartialEq, Eq, Debug)]
+enum Status {
+    Absent,
+    Parked,
+    Running,
+    Blocked(usize),
+    Exited,
+}
+
+#[derive(Clone, Debug)]
+struct Task {
+    status: Status,
+    site: &'static str,
+}
+
+#[derive(Clone, Debug, PartialEq, Eq)]
+pub struct Choice {
+    /// enabled task ids in canonical order (the task that just ran first if still enabled, then ascending)
+    pub enabled: Vec<usize>,
+    /// index into `enabled`
+    pub chosen: usize,
+    /// was the previously running task still enabled (then choosing another one is a preemption)
+    pub runner_enabled: bool,
+    pub phase: usize,
+    pub phase_site: &'static str,
+}
+
+#[derive(Clone, Debug, PartialEq, Eq)]
+pub struct Event {
+    pub phase: usize,
+    pub task: usize,
+    pub site: &'static str,
+    pub arg: u64,
+}
+
+#[derive(Default, Clone, Debug)]
+pub struct ExecResult {
+    pub trace: Vec<Choice>,
+    pub events: Vec<Event>,
+    pub writes: Vec<(usize, usize, usize)>,
+    pub panicked: Option<String>,
+    pub deadlock: bool,
+    pub divergence: Option<String>,
+    pub stalled: bool,
+    pub phases: usize,
+    pub write_veto: Option<String>,
+}
+
+impl ExecResult {
+    pub fn choices(&self) -> Vec<u8> {
+        self.trace.iter().map(|c| c.chosen as u8).collect()
+    }
+    pub fn preemptions(&self) -> u32 {
+        self.trace.iter().filter(|c| c.chosen != 0 && c.runner_enabled).count() as u32
+    }
+}
+
+struct State {
+    exec: u64,
+    active: bool,
+    free: bool,
+    logging: bool,
+    symmetry: bool,
+    tasks: Vec<Task>,
+    expected: usize,
+    threads: usize,
+    registered: usize,
+    /// the current phase is not controlled (more tasks than pool threads: which tasks start first is rayon's choice)
+    phase_free: bool,
+    running: Option<usize>,
+    last_ran: Option<usize>,
+    prefix: Vec<u8>,
+    phase: usize,
+    phase_site: &'static str,
+    last_progress: Instant,
+    res: ExecResult,
+}
+
+pub struct Controller {
+    st: Mutex<State>,
+    cv: Condvar,
+}
+
+thread_local! {
+    /// (execution number, phase, task id) of the controlled task running on this thread
+    static TASK: Cell<Option<(u64, usize, usize)>> = const { Cell::new(None) };
+}
+
+static CONTROLLER: OnceLock<Arc<Controller>> = OnceLock::new();
+const STALL: Duration = Duration::from_secs(30);
+
+pub fn controller() -> Arc<Controller> {
+    CONTROLLER
+        .get_or_init(|| {
+            let c = Arc::new(Controller {
+                st: Mutex::new(State {
+                    exec: 0,
+                    active: false,
+                    free: true,
+                    logging: false,
+                    symmetry: true,
+                    tasks: Vec::new(),
+                    expected: 0,
+                    threads: 0,
+                    registered: 0,
+                    phase_free: false,
+                    running: None,
+                    last_ran: None,
+                    prefix: Vec::new(),
+                    phase: 0,
+                    phase_site: "",
+                    last_progress: Instant::now(),
+                    res: ExecResult::default(),
+                }),
+                cv: Condvar::new(),
+            });
+            ktio::verif::set_handler(Some(c.clone() as Arc<dyn Handler>));
+            c
+        })
+        .clone()
+}
+
+/// called from the global panic hook
+pub fn on_panic(msg: &str) {
+    if let Some(c) = CONTROLLER.get() {
+        let mine = TASK.with(|t| t.get());
+        let mut st = c.st.lock().unwrap_or_else(|e| e.into_inner());
+        if st.active {
+            if let Some((exec, _, _)) = mine {
+                if exec == st.exec && st.res.panicked.is_none() {
+                    st.res.panicked = Some(msg.to_string());
+                }
+            } else if st.res.panicked.is_none() && !msg.starts_with("verif:") {
+                st.res.panicked = Some(msg.to_string());
+            }
+            if !st.free {
+                st.free = true;
+            }
+            c.cv.notify_all();
+        }
+    }
+}
+
+impl Controller {
+    fn lock(&self) -> std::sync::MutexGuard<'_, State> {
+        self.st.lock().unwrap_or_else(|e| e.into_inner())
+    }
+
+    fn my_task(&self, st: &State) -> Option<usize> {
+        TASK.with(|t| t.get()).and_then(|(exec, phase, id)| if exec == st.exec && phase == st.phase { Some(id) } else { None })
+    }
+
+    /// take a scheduling decision if nobody is running and nobody is still expected to arrive
+    fn maybe_decide(&self, st: &mut State) {
+        if st.free || st.running.is_some() {
+            return;
+        }
+        let exited = st.tasks.iter().filter(|t| t.status == Status::Exited).count();
+        let live = st.registered - exited;
+        let to_register = st.expected.saturating_sub(st.registered);
+        if to_register > 0 && live < st.threads {
+            return; // a pool thread is free and will pick up a pending task: wait for its registration
+        }
+        let mut enabled: Vec<usize> = Vec::new();
+        let mut seen_start = false;
+        if let Some(l) = st.last_ran {
+            if st.tasks[l].status == Status::Parked {
+                enabled.push(l);
+                if st.tasks[l].site == "task.start" {
+                    seen_start = true;
+                }
+            }
+        }
+        for (i, t) in st.tasks.iter().enumerate() {
+            if t.status != Status::Parked || Some(i) == st.last_ran {
+                continue;
+            }
+            if st.symmetry && t.site == "task.start" {
+                // tasks that have not run any code are interchangeable: offer only the lowest id
+                if seen_start {
+                    continue;
+                }
+                seen_start = true;
+            }
+            enabled.push(i);
+        }
+        if enabled.is_empty() {
+            if st.tasks.iter().any(|t| matches!(t.status, Status::Blocked(_))) {
+                st.res.deadlock = true;
+                st.free = true;
+                self.cv.notify_all();
+            }
+            return; // all exited: the phase is over
+        }
+        let pos = st.res.trace.len();
+        let idx = if pos < st.prefix.len() { st.prefix[pos] as usize } else { 0 };
+        if idx >= enabled.len() {
+            st.res.divergence = Some(format!("choice {} at decision {} but only {} task(s) enabled", idx, pos, enabled.len()));
+            st.free = true;
+            self.cv.notify_all();
+            return;
+        }
+        let runner_enabled = match st.last_ran {
+            Some(l) => st.tasks[l].status == Status::Parked,
+            None => false,
+        };
+        let t = enabled[idx];
+        let (phase, phase_site) = (st.phase, st.phase_site);
+        st.res.trace.push(Choice {
+            enabled,
+            chosen: idx,
+            runner_enabled,
+            phase,
+            phase_site,
+        });
+        st.tasks[t].status = Status::Running;
+        st.running = Some(t);
+        st.last_progress = Instant::now();
+        self.cv.notify_all();
+    }
+
+    /// park the calling task until it is chosen (or the execution goes free)
+    fn wait_turn<'a>(&'a self, mut st: std::sync::MutexGuard<'a, State>, id: usize, exec: u64) {
+        loop {
+            if st.exec != exec || st.free || st.running == Some(id) {
+                return;
+            }
+            let (g, _) = self.cv.wait_timeout(st, Duration::from_millis(200)).unwrap_or_else(|e| e.into_inner());
+            st = g;
+            if st.exec == exec && !st.free && st.last_progress.elapsed() > STALL {
+                st.res.stalled = true;
+                st.free = true;
+                self.cv.notify_all();
+                return;
+            }
+        }
+    }
+}
+
+impl Handler for Controller {
+    fn point(&self, site: &'static str, arg: u64) {
+        let mut st = self.lock();
+        if !st.active || st.free || st.phase_free {
+            return;
+        }
+        let exec = st.exec;
+        if site == "task.start" || site == "task.start.id" {
+            // symmetric workers are numbered by arrival; workers with an identity (merge: chunk) carry it
+            let id = if site == "task.start" { st.tasks.len() } else { arg as usize };
+            while st.tasks.len() <= id {
+                st.tasks.push(Task {
+                    status: Status::Absent,
+                    site: "",
+                });
+            }
+            st.tasks[id] = Task {
+                status: Status::Parked,
+                site,
+            };
+            st.registered += 1;
+            let phase = st.phase;
+            TASK.with(|t| t.set(Some((exec, phase, id))));
+            // registrations arrive in an arbitrary order: they are not part of the (deterministic) event log
+            self.maybe_decide(&mut st);
+            self.wait_turn(st, id, exec);
+            return;
+        }
+        let id = match self.my_task(&st) {
+            Some(id) => id,
+            None => return, // a thread that is not a controlled task (main thread, scope owner)
+        };
+        let phase = st.phase;
+        st.res.events.push(Event {
+            phase,
+            task: id,
+            site,
+            arg,
+        });
+        st.tasks[id].site = site;
+        st.tasks[id].status = if site == "task.exit" { Status::Exited } else { Status::Parked };
+        st.running = None;
+        st.last_ran = Some(id);
+        self.maybe_decide(&mut st);
+        if site == "task.exit" {
+            TASK.with(|t| t.set(None));
+            return;
+        }
+        self.wait_turn(st, id, exec);
+    }
+
+    fn scope_begin(&self, site: &'static str, tasks: usize, threads: usize) {
+        let mut st = self.lock();
+        if !st.active || st.free {
+            return;
+        }
+        st.phase += 1;
+        st.phase_site = site;
+        st.tasks.clear();
+        st.expected = tasks;
+        st.threads = threads.max(1);
+        st.registered = 0;
+        st.phase_free = tasks > threads;
+        st.running = None;
+        st.last_ran = None;
+        st.res.phases = st.phase;
+        st.last_progress = Instant::now();
+    }
+
+    fn log_write(&self, pos: usize, len: usize, cap: usize) {
+        let mut st = self.lock();
+        if !st.logging {
+            return;
+        }
+        st.res.writes.push((pos, len, cap));
+        if pos.checked_add(len).map(|e| e > cap).unwrap_or(true) {
+            let msg = format!("verif: mapped write of {} bytes at offset {} exceeds the mapping of {} bytes", len, pos, cap);
+            if st.res.write_veto.is_none() {
+                st.res.write_veto = Some(msg.clone());
+            }
+            drop(st);
+            // refuse the write before it happens: the violating execution is reported instead of corrupting memory
+            panic!("{}", msg);
+        }
+    }
+
+    fn blocked(&self, mutex: usize) {
+        let mut st = self.lock();
+        if !st.active {
+            drop(st);
+            std::thread::yield_now();
+            return;
+        }
+        if st.free {
+            let dead = st.res.deadlock;
+            drop(st);
+            if dead {
+                panic!("verif: deadlock - task unwound");
+            }
+            std::thread::yield_now();
+            return;
+        }
+        let exec = st.exec;
+        let id = match self.my_task(&st) {
+            Some(id) => id,
+            None => {
+                drop(st);
+                std::thread::yield_now();
+                return;
+            }
+        };
+        st.tasks[id].status = Status::Blocked(mutex);
+        st.tasks[id].site = "mutex.blocked";
+        st.running = None;
+        st.last_ran = Some(id);
+        self.maybe_decide(&mut st);
+        self.wait_turn(st, id, exec);
+    }
+
+    fn released(&self, mutex: usize) {
+        let mut st = self.lock();
+        if !st.active || st.free {
+            return;
+        }
+        for t in st.tasks.iter_mut() {
+            if t.status == Status::Blocked(mutex) {
+                t.status = Status::Parked;
+            }
+        }
+    }
+}
+
+#[derive(Clone, Copy)]
+pub struct ExecOpts {
+    pub controlled: bool,
+    pub logging: bool,
+    pub symmetry: bool,
+}
+
+/// run `f` once under the controller with the given choice prefix
+pub fn execute<R, F: FnOnce() -> R>(prefix: &[u8], opts: ExecOpts, f: F) -> (Result<R, String>, ExecResult) {
+    let c = controller();
+    {
+        let mut st = c.lock();
+        st.exec += 1;
+        st.active = opts.controlled;
+        st.free = !opts.controlled;
+        st.logging = opts.logging;
+        st.symmetry = opts.symmetry;
+        st.tasks.clear();
+        st.expected = 0;
+        st.threads = 1;
+        st.registered = 0;
+        st.phase_free = false;
+        st.running = None;
+        st.last_ran = None;
+        st.prefix = prefix.to_vec();
+        st.phase = 0;
+        st.phase_site = "";
+        st.last_progress = Instant::now();
+        st.res = ExecResult::default();
+    }
+    let r = crate::ctx::guard(f);
+    let mut st = c.lock();
+    st.active = false;
+    st.free = true;
+    st.logging = false;
+    c.cv.notify_all();
+    let res = std::mem::take(&mut st.res);
+    (r, res)
+}
+
+// ------------------------------------------------------------------------------------------ explorer
+
+#[derive(Default, Clone, Debug)]
+pub struct ExploreStats {
+    pub executions: u64,
+    /// executions by number of preemptions (index = preemptions)
+    pub by_preemptions: Vec<u64>,
+    pub choice_points: u64,
+    pub branching_points: u64,
+    pub max_trace: usize,
+    pub pruned_by_bound: u64,
+    pub capped: bool,
+}
+
+pub struct ExploreCfg<'a> {
+    /// maximum number of preemptions (None = unbounded)
+    pub bound: Option<u32>,
+    /// this process explores only the subtrees assigned to it below the split level
+    pub shard: (u64, u64),
+    pub split_level: usize,
+    /// initial choice prefix (exploration branches only after it)
+    pub root: Vec<u8>,
+    /// only choice points satisfying this predicate are branched on
+    pub branch: &'a dyn Fn(&Choice) -> bool,
+    /// hard cap on executions (reported as a cap, never as exhaustive)
+    pub max_executions: u64,
+}
+
+/// Depth-first exploration by re-execution. `run` executes one schedule (given as a choice prefix) and
+/// returns its result after having checked the oracle; it returns false to stop the search.
+pub fn explore<F: FnMut(&[u8], bool) -> (ExecResult, bool)>(cfg: &ExploreCfg, mut run: F) -> ExploreStats {
+    let mut stats = ExploreStats::default();
+    // stack of (prefix, number of deviations in it beyond the root, owned)
+    let mut stack: Vec<(Vec<u8>, usize, bool)> = vec![(cfg.root.clone(), 0, true)];
+    let mut split_counter: u64 = 0;
+    while let Some((prefix, devs, owned)) = stack.pop() {
+        if stats.executions >= cfg.max_executions {
+            stats.capped = true;
+            break;
+        }
+        // executions above the split level are run by every shard but counted by shard 0 only
+        let counted = if devs < cfg.split_level { cfg.shard.0 == 0 } else { owned };
+        let (res, go_on) = run(&prefix, counted);
+        if std::env::var_os("KTMC_DEBUG").is_some() && stats.executions % 500 == 0 {
+            eprintln!("explore: {} executions, stack {}, prefix {} trace {} pre {} phases {:?}", stats.executions, stack.len(), fmt_choices(&prefix), res.trace.len(), res.preemptions(), res.trace.iter().map(|c| c.phase).max());
+        }
+        if counted {
+            stats.executions += 1;
+            let p = res.preemptions() as usize;
+            if stats.by_preemptions.len() <= p {
+                stats.by_preemptions.resize(p + 1, 0);
+            }
+            stats.by_preemptions[p] += 1;
+            stats.choice_points += res.trace.len() as u64;
+            stats.max_trace = stats.max_trace.max(res.trace.len());
+        }
+        if !go_on {
+            break;
+        }
+        if res.divergence.is_some() || res.stalled {
+            break;
+        }
+        let choices = res.choices();
+        // children in reverse order so that the earliest deviation is explored first (DFS, simplest first)
+        let mut children: Vec<(Vec<u8>, usize, bool)> = Vec::new();
+        let mut pre: u32 = res.trace[..prefix.len().min(res.trace.len())].iter().filter(|c| c.chosen != 0 && c.runner_enabled).count() as u32;
+        for i in prefix.len()..res.trace.len() {
+            let c = &res.trace[i];
+            if (cfg.branch)(c) && c.enabled.len() > 1 {
+                if counted {
+                    stats.branching_points += 1;
+                }
+                for alt in 1..c.enabled.len() {
+                    let cost = pre + if c.runner_enabled { 1 } else { 0 };
+                    if let Some(b) = cfg.bound {
+                        if cost > b {
+                            if counted {
+                                stats.pruned_by_bound += 1;
+                            }
+                            continue;
+                        }
+                    }
+                    let mut child = choices[..i].to_vec();
+                    child.push(alt as u8);
+                    let cdevs = devs + 1;
+                    let cowned = if cdevs == cfg.split_level {
+                        let mine = split_counter % cfg.shard.1 == cfg.shard.0;
+                        split_counter += 1;
+                        mine
+                    } else {
+                        owned
+                    };
+                    if cdevs >= cfg.split_level && !cowned {
+                        continue;
+                    }
+                    children.push((child, cdevs, cowned));
+                }
+            }
+            if c.chosen != 0 && c.runner_enabled {
+                pre += 1;
+            }
+        }
+        for ch in children.into_iter().rev() {
+            stack.push(ch);
+        }
+    }
+    stats
+}
+
+pub fn fmt_choices(c: &[u8]) -> String {
+    c.iter().map(|x| x.to_string()).collect::<Vec<_>>().join("")
+}
+
+pub fn parse_choices(s: &str) -> Vec<u8> {
+    s.bytes().filter(|b| b.is_ascii_digit()).map(|b| b - b'0').collect()
+}
